@@ -26,6 +26,11 @@ def build_roots():
     def add(name, code, max_paths=900, opaque=(), **m):
         roots.append(Root(name, code, max_paths=max_paths, opaque=opaque)); meta[name] = m
 
+    # projected_point goes through Clamp, which has one impl per primitive type (macro arms): every arm is analysed
+    for d in (2, 3):
+        for ty in ('i8', 'i16', 'i64', 'u8', 'u16', 'u32', 'u64', 'f64'):
+            BT = '%s<%s>' % (BOX[d], ty); VT = '%s<%s>' % (VEC[d], ty); t = '%s_%d' % (ty, d)
+            add('r_box_projected_' + t, 'pub fn r_box_projected_%s(a: %s, p: %s) -> %s { a.projected_point(p) }' % (t, BT, VT, VT), kind='projected', d=d, ty=ty, shape='box')
     for d in (2, 3):
         Bx, R, V, E, s, rs = BOX[d], RECT[d], VEC[d], EXT[d], SUF[d], RSUF[d]
         for ty in ('i32', 'f32'):
@@ -125,17 +130,74 @@ def axis_envs(names_per_axis, limit):
             yield a
 
 
+def _cmp_of_leaves(r):
+    """r is x - y, x - c or c - x for input leaves x, y and a constant c (what a comparison of two such operands normalises to)"""
+    if not isinstance(r, Rat) or not r.is_poly(): return False
+    pos = neg = 0
+    for mono, c in r.num.t.items():
+        if mono == (): continue
+        if len(mono) != 1 or mono[0][1] != 1 or alg._ATOMS[mono[0][0]][0] == 'fn': return False
+        if c == 1: pos += 1
+        elif c == -1: neg += 1
+        else: return False
+    return pos <= 1 and neg <= 1 and pos + neg >= 1
+
+
+def _ord_cond(c):
+    if not isinstance(c, B): return False
+    if c.k in ('const', 'var'): return True
+    if c.k in ('gt0', 'ge0', 'eq0', 'ne0'): return _cmp_of_leaves(c.a[0])
+    if c.k in ('and', 'or'): return _ord_cond(c.a[0]) and _ord_cond(c.a[1])
+    if c.k == 'not': return _ord_cond(c.a[0])
+    return False
+
+
+def _ord_value(v):
+    if isinstance(v, (list, tuple)): return all(_ord_value(x) for x in v)
+    if isinstance(v, B): return _ord_cond(v)
+    if isinstance(v, Rat):
+        if v.is_const(): return True
+        if v.is_poly() and len(v.num.t) == 1:
+            (mono, c), = v.num.t.items()
+            if not (c == 1 and len(mono) == 1 and mono[0][1] == 1): return False
+            kind, name, args = alg._ATOMS[mono[0][0]]
+            # min / max of order-invariant values select one of them
+            return kind != 'fn' or (name in ('min', 'max') and all(_ord_value(x) for x in args))
+        return False
+    if hasattr(v, 'fields'): return all(_ord_value(x) for x in v.fields)
+    return isinstance(v, (bool, int))
+
+
+def order_invariant(rs):
+    """the abstract path set touches its inputs only through comparisons and returns input leaves, constants or comparison results: then its behaviour
+    depends on the weak ordering of the inputs only, and evaluating it on one representative per ordering decides it for all values"""
+    for p in rs.paths:
+        if not all(_ord_cond(c) for c in p.conds): return False
+        if p.out == 'ret' and not _ord_value(p.ret): return False
+    return True
+
+
+# strictly increasing rank -> value maps within the oracle grid (ranks 0..3): used when the path set does arithmetic on its inputs, where one representative
+# per ordering is not enough
+SPACINGS = [None, [1, 3, 4, 5], [0, 2, 3, 5], [1, 2, 4, 5], [2, 3, 4, 5], [0, 1, 4, 5], [0, 3, 4, 5]]
+
+
 def run_ord(ctx, key, rs, names_per_axis, oracle, rule, w, limit):
     """evaluate the abstract paths on every ordering; oracle(assign) -> expected value, or None when the statement does not constrain this case"""
     cr = CompiledRoot(rs)
     n = 0; skipped = 0; bad = None
-    for a in axis_envs(names_per_axis, limit):
+    inv = order_invariant(rs)
+    ctx.counts['ord:order-invariant' if inv else 'ord:arithmetic-sampled'] = ctx.counts.get('ord:order-invariant' if inv else 'ord:arithmetic-sampled', 0) + 1
+    if not inv: ctx.counts.setdefault('ord:arithmetic-sampled-roots', []).append(key)
+    if not inv: rule += ' [the code does arithmetic on its inputs: beyond one representative per ordering, evaluated on %d value spacings (sampled)]' % (len(SPACINGS) - 1)
+    envs = ((a if sp is None else {k: sp[int(r)] for k, r in a.items()}) for sp in (SPACINGS if not inv else [None]) for a in axis_envs(names_per_axis, limit) if sp is None or all(float(r).is_integer() and 0 <= r < len(sp) for r in a.values()))
+    for a in envs:
         exp = oracle(a)
         if exp is None:
             skipped += 1; continue
         env = mkenv(a)
         try: p = cr.run(env)
-        except AssertionError as e:
+        except (AssertionError, KeyError, ValueError, TypeError, IndexError, ZeroDivisionError, AttributeError) as e:
             bad = (a, 'path', str(e)); break
         got = 'panic' if p.out != 'ret' else value(p.ret, env)
         n += 1
@@ -471,7 +533,7 @@ def run(ctx):
                         elif high: ctx.same('%s/path%d/%s/touch' % (key, pi, ax), lo[i] - v[i], hi2[i], 'alg=: box 1 right of box 2: (min1 - v) = max2, the boxes touch', w)
             elif isint and shape == 'rect':
                 pass
-        except AssertionError as e:
+        except (AssertionError, KeyError, ValueError, TypeError, IndexError, ZeroDivisionError, AttributeError) as e:
             ctx.ob(key + '/paths', False, 'path structure', w, 'analysable', str(e))
     # in-place twins: same abstract path set as the returning form
     for r in roots:
